@@ -12,6 +12,8 @@ import StorageModel.Generated.AcceptTable
      maps, pub   comma separated names `x<hex>`, `-` for the empty list
      tree   pre-order:  Z  |  T <kind> (typed nil pointer in an interface)  |  N <kind> <#strs> {<field> x<hex>} <#kids> {<label> <tree>}
    model output:  ok v=<visited> g=<…> gp=<0|1>  |  err x<hex> v=<visited> g=<…> gp=<0|1>  |  panic  |  - v=<visited> (tag u)  |  bad-shape
+   tag a lines end with `// X <names> // G <names>`: the identifiers the recipe hands to the API (X) and the sort clause in
+   force (G); the specification counts X as referenced
    tag p lines carry a second tree after `//`: the untyped tree of the same text
    spec output:   wf=<0|1> cfg=<0|1> nc=<0|1> tt=<0|1> ty=<0|1> bad=<names> all=<names>
                   (tt: typed tree and query text reference the same symbols;
@@ -98,6 +100,7 @@ structure Case where
   tree : Tree
   source : Option Tree      -- tag p: the untyped tree of the same query text (what the text references)
   symtab : Option SymTab := none    -- tag p: the symbol types the text was parsed against
+  expected : List Bytes := []       -- tag a: the identifiers handed to the API calls of the recipe
 
 def parseCase (line : String) : Option Case :=
   match splitSp line with
@@ -107,6 +110,11 @@ def parseCase (line : String) : Option Case :=
     let (t, rest) ← parseTree toks
     match rest with
     | [] => some { tag := tag, cfg := { maps := m, pub := p }, tree := t, source := none }
+    | ["//", "X", xs, "//", "G", _gs] =>
+      -- tag a: what the assembled query references by construction (computed by the harness from the recipe's
+      -- inputs); the specification judges against the tree's symbols AND these
+      let x ← decodeNames xs
+      some { tag := tag, cfg := { maps := m, pub := p }, tree := t, source := none, expected := x }
     | "//" :: more =>
       let (u, rest) ← parseTree more
       match rest with
@@ -162,7 +170,7 @@ def specStep (line : String) : String :=
       | some u => (allSymbols T u).eraseDups
       | none => typed
     -- what the query references: the symbols of the typed tree and, for parsed text, of the text itself
-    let all := (typed ++ src).eraseDups
+    let all := (typed ++ src ++ c.expected).eraseDups
     let bad := all.filter (fun s => !specIsPublic c.cfg s)
     let tt := typed.all (fun s => src.contains s) && src.all (fun s => typed.contains s)
     -- the modelled typing transformation, applied to the real untyped tree for the real symbol types,
